@@ -40,9 +40,25 @@ def handle : Handler
     let some lo := (kw? args "lower").bind Val.asFloats? | return "bad-op"
     let some hi := (kw? args "upper").bind Val.asFloats? | return "bad-op"
     let some nb := (kw? args "nbins").bind Val.asNats? | return "bad-op"
-    match latticePoints dim lo hi nb with
+    let some strict := (kw? args "strict").bind Val.asBool? | return "bad-op"
+    match latticePoints (!strict) dim lo hi nb with
     | .error e => return showErr e
     | .ok pts => return s!"ok n={pts.length} pts={pFss pts}"
+  | .sym "latticeN" :: args => Id.run do
+    -- ensemble.py l.61-65: an integer `nbins` goes through `randomly_bin(nbins, nDim, ones=True, exact=True)` first
+    let some n := (kw? args "N").bind Val.asNat? | return "bad-op"
+    let some dim := (kw? args "dim").bind Val.asNat? | return "bad-op"
+    let some lo := (kw? args "lower").bind Val.asFloats? | return "bad-op"
+    let some hi := (kw? args "upper").bind Val.asFloats? | return "bad-op"
+    let some keys := (kw? args "keys").bind Val.asFloats? | return "bad-op"
+    let some strict := (kw? args "strict").bind Val.asBool? | return "bad-op"
+    let ka := keys.toArray
+    match randomlyBin (fun i => ka.getD i 0.0) n (some dim) true true with
+    | .typeError => return "err type"
+    | .ok bins draws =>
+      match latticePoints (!strict) dim lo hi bins with
+      | .error e => return showErr e
+      | .ok pts => return s!"ok n={pts.length} draws={draws} bins={pNs bins} pts={pFss pts}"
   | .sym "samples" :: args => Id.run do
     let some lb := (kw? args "lb").bind Val.asFloats? | return "bad-op"
     let some ub := (kw? args "ub").bind Val.asFloats? | return "bad-op"
